@@ -78,6 +78,9 @@ func nxConfigs(part string, thorough bool) []*nxCfg {
 			{Name: "quiesce-leader-failure-realtime", N: 3, Quiesce: true, RealTime: true, MaxDev: 1, Prefix: nxWarm,
 				Script:   append(append(append(append([]string{}, repN([]string{"K1", "K2", "K3"}, 205)...), "W2", "K1", "K2", "K3", "S1"), repN([]string{"K2", "K3"}, 45)...), "W2", "K2", "K3", "R3", "K2", "K3"),
 				Reorders: 1, Horizon: 4000, RequireComplete: true},
+			{Name: "ratelimit-realtime", N: 3, RealTime: true, RateLimit: 200, MaxDev: 1, Prefix: nxWarm,
+				Script:   append(append([]string{"z1", "W1", "W1", "W1", "W1", "K1", "K2", "K3", "W1", "Z1"}, repN([]string{"K1", "K2", "K3"}, 130)...), "W2", "K1", "K2", "K3", "W1", "K1", "K2", "K3"),
+				Reorders: 1, LazyApplies: 1, Horizon: 3000, RequireComplete: true, BusyAllowedBefore: 5},
 			{Name: "restart-then-requests", N: 3, MaxDev: 1, Prefix: nxWarm, Script: []string{"W1", "C2", "H1", "W2", "R2", "C1", "T2", "H2", "W3", "R1", "H2"}, Reorders: 1, LazyApplies: 1, Horizon: 300, RequireComplete: true},
 		}
 	case "c01":
